@@ -79,7 +79,9 @@ func c09HeavyRun(ctx *core.RunCtx) {
 		call := func(c *rlwe.Ciphertext) (*rlwe.Ciphertext, error) { return ev.Mod1Evaluator.EvaluateNew(c) }
 		if ch.Bool("mod1-and-scale") {
 			name = "mod1.EvaluateAndScaleNew"
-			call = func(c *rlwe.Ciphertext) (*rlwe.Ciphertext, error) { return ev.Mod1Evaluator.EvaluateAndScaleNew(c, scaling) }
+			call = func(c *rlwe.Ciphertext) (*rlwe.Ciphertext, error) {
+				return ev.Mod1Evaluator.EvaluateAndScaleNew(c, scaling)
+			}
 		}
 		ctx.Count("op.ckks."+name, 1)
 		fp := core.NewSweep().FootprintOf(&ev.Mod1Parameters)
